@@ -1,3 +1,4 @@
 """Sidecar contracts for odc-geo (one module per repository module)."""
 from . import roi_c  # noqa: F401
 from . import math_c  # noqa: F401
+from . import mpu_c  # noqa: F401
